@@ -47,7 +47,8 @@ for pkg in pkgs:
     missing += [f'{imp}::{t}' for t in want if t not in passed]
 res['baseline_tests_missing_with_change'] = missing
 os.rename(hidden, os.path.join(wt, demo_path))
-run = f"go test -count=1 -vet=off {demo_pkg} -run '^({'|'.join(demo_tests)})$'"
+race = '-race ' if '-race' in demo.get('run', '') else ''
+run = f"go test {race}-count=1 -vet=off {demo_pkg} -run '^({'|'.join(demo_tests)})$'"
 with_change = sh(run)
 sh('git apply -R patch.diff')
 without = sh(run)
